@@ -324,6 +324,8 @@ def check_image_mirror(ctx, ck, rule='R-SYM.image-mirror', entries=('mininec.Min
                 cnt[s.targets[0].id] = cnt.get(s.targets[0].id, 0) + 1
                 defs[s.targets[0].id] = s.value
         defs = {k_: v_ for k_, v_ in defs.items() if cnt[k_] == 1}
+        fl_ = ctx.flow(g)
+        at_box = [None]
 
         def positional(e, depth=0):
             # (what a function computes FROM positions - a potential - is not a position: arguments of calls are
@@ -340,7 +342,15 @@ def check_image_mirror(ctx, ck, rule='R-SYM.image-mirror', entries=('mininec.Min
                     return True
                 return positional(e.value, depth) if e.attr == 'T' else False
             if isinstance(e, ast.Name):
-                return e.id in defs and depth < 3 and e.id not in knames and positional(defs[e.id], depth + 1)
+                if e.id in knames or depth >= 3:
+                    return False
+                if e.id in defs:
+                    return positional(defs[e.id], depth + 1)
+                # bound more than once: what reaches this use
+                at_ = at_box[0]
+                if at_ is not None and e.id in fl_.rd.names:
+                    return any(d_[0] == 'assign' and positional(d_[1], depth + 1) for d_ in fl_.def_exprs(e.id, at_))
+                return False
             if isinstance(e, ast.Subscript):
                 return positional(e.value, depth)
             if isinstance(e, ast.BinOp):
@@ -355,6 +365,7 @@ def check_image_mirror(ctx, ck, rule='R-SYM.image-mirror', entries=('mininec.Min
                 for a, b in ((x.left, x.right), (x.right, x.left)):
                     if isinstance(a, ast.Name) and a.id in knames:
                         n += 1
+                        at_box[0] = fl_.node_id_of(x)
                         bad = positional(b)
                         ck.ob(rule, '%s|%s' % (q, norm(x)[:60]), not bad, g.loc(x),
                               'the image index weights a potential / current' if not bad else
